@@ -50,7 +50,7 @@ def run(tier, seed, opens):
     class Down(Exception):
         pass
 
-    orig = {m: getattr(bt.BitcoinLibTestClient, m, None) for m in ('gettransactions', 'gettransaction', 'blockcount', 'getrawtransaction', 'getutxos', 'estimatefee')}
+    orig = {m: getattr(bt.BitcoinLibTestClient, m, None) for m in ('gettransactions', 'gettransaction', 'blockcount', 'getrawtransaction', 'getutxos', 'estimatefee', 'getblock')}
 
     def p_gettransactions(self, addr, after_txid='', limit=20):
         state['calls'] += 1
@@ -78,6 +78,8 @@ def run(tier, seed, opens):
         state['calls'] += 1
         if state['down']:
             raise Down('provider down')
+        if state.get('fee_answer') is not None:
+            return state['fee_answer']
         return 100000 // blocks
 
     def p_getutxos(self, addr, after_txid='', limit=20):
@@ -90,6 +92,15 @@ def run(tier, seed, opens):
             txs = txs[ids.index(after_txid) + 1:] if after_txid in ids else []
         return [{'address': addr, 'txid': t.txid, 'confirmations': t.confirmations, 'output_n': 0, 'input_n': 0, 'block_height': t.block_height,
                  'fee': t.fee, 'size': 0, 'value': t.outputs[0].value, 'script': '', 'date': t.date} for t in txs][:limit]
+
+    def p_getblock(self, blockid, parse_transactions, page, limit):
+        state['calls'] += 1
+        if state['down']:
+            raise Down('provider down')
+        txs = state['block'][(page - 1) * limit:page * limit]
+        return {'bits': 0x1d00ffff, 'depth': 11, 'block_hash': b'\x11' * 32, 'height': 100, 'merkle_root': b'\x22' * 32, 'nonce': 12345,
+                'prev_block': b'\x33' * 32, 'time': 1704110400, 'tx_count': len(state['block']), 'txs': txs if parse_transactions else [t.txid for t in txs],
+                'version': b'\x00\x00\x00\x01', 'page': page, 'pages': None, 'limit': limit}
 
     listed = {o.get('id') for o in opens}
 
@@ -107,6 +118,7 @@ def run(tier, seed, opens):
     bt.BitcoinLibTestClient.blockcount = p_blockcount
     bt.BitcoinLibTestClient.getutxos = p_getutxos
     bt.BitcoinLibTestClient.estimatefee = p_estimatefee
+    bt.BitcoinLibTestClient.getblock = p_getblock
     try:
         maxn = 4 if tier == 'quick' else 5
         cfg = 0
@@ -218,6 +230,87 @@ def run(tier, seed, opens):
                         except Exception as e:
                             fail('gettransactions, query %d, one transaction cannot be cached' % rnd, scen, 'raised %s: %s' % (type(e).__name__, str(e)[:150]), 'the provider answer')
                             break
+        # block pages: a block of 7 transactions read page by page (page size 2, 3, 7) with the provider up, then again - in another order - with
+        # the provider down: a page served from the cache is the page that was stored (same transactions, same order), or the query fails
+        for limit in (2, 3, 7):
+            cfg += 1
+            db = 'sqlite:///' + os.path.join(tmp, 'b%d.sqlite' % cfg)
+            state['block'] = [make_tx(i, 100) for i in range(7)]
+            ids = [t.txid for t in state['block']]
+            n_pages = -(-7 // limit)
+            state['down'] = False
+            good = True
+            for page in range(1, n_pages + 1):
+                cases += 1
+                try:
+                    b = Service(network=net, cache_uri=db).getblock(100, parse_transactions=True, page=page, limit=limit)
+                    got = [t.txid if hasattr(t, 'txid') else t for t in b.transactions]
+                    if got != ids[(page - 1) * limit:page * limit]:
+                        fail('getblock page from the provider', {'limit': limit, 'page': page}, repr([ids.index(g) for g in got if g in ids]), repr(list(range((page - 1) * limit, min(7, page * limit)))))
+                        good = False
+                    else:
+                        ok += 1
+                except Exception as e:
+                    fail('getblock page from the provider', {'limit': limit, 'page': page}, 'raised %s: %s' % (type(e).__name__, str(e)[:120]), 'the provider answer')
+                    good = False
+            if not good:
+                continue
+            state['down'] = True
+            for page in list(range(n_pages, 0, -1)) + list(range(1, n_pages + 1)):
+                cases += 1
+                try:
+                    b = Service(network=net, cache_uri=db).getblock(100, parse_transactions=True, page=page, limit=limit)
+                    if not b:
+                        ok += 1          # failing is allowed
+                        continue
+                    got = [t.txid if hasattr(t, 'txid') else t for t in b.transactions]
+                    want_p = ids[(page - 1) * limit:page * limit]
+                    if got != want_p:
+                        fail('getblock page from the cache', {'limit': limit, 'page': page, 'provider': 'down'}, 'transactions number %s of the block' % [ids.index(g) if g in ids else '?' for g in got],
+                             'transactions number %s' % list(range((page - 1) * limit, min(7, page * limit))))
+                    elif any(hasattr(t, 'raw_hex') and t.raw_hex() != state['block'][ids.index(t.txid)].raw_hex() for t in b.transactions):
+                        fail('getblock page from the cache', {'limit': limit, 'page': page, 'provider': 'down'}, 'a transaction differs from the stored one', 'the stored transactions')
+                    else:
+                        ok += 1
+                except ServiceError:
+                    ok += 1
+                except Exception as e:
+                    if type(e).__name__ == 'Down':
+                        ok += 1
+                    else:
+                        fail('getblock page from the cache', {'limit': limit, 'page': page, 'provider': 'down'}, 'raised %s: %s' % (type(e).__name__, str(e)[:120]), 'stored page or ServiceError')
+            state['down'] = False
+        # address history first, block pages afterwards: the third transaction of block 100 is cached through gettransactions(address); page 2 of the
+        # block (page size 1) is then fetched from the provider; page 1 must still be the block's FIRST transaction (from the provider or the cache)
+        for provider_up in (True, False):
+            cfg += 1
+            cases += 1
+            db = 'sqlite:///' + os.path.join(tmp, 'i%d.sqlite' % cfg)
+            state['block'] = [make_tx(i, 100) for i in range(3)]
+            ids = [t.txid for t in state['block']]
+            state['chain'] = [state['block'][2]]
+            state['down'] = False
+            try:
+                Service(network=net, cache_uri=db).gettransactions(address)
+                Service(network=net, cache_uri=db).getblock(100, parse_transactions=True, page=2, limit=1)
+                state['down'] = not provider_up
+                b = Service(network=net, cache_uri=db).getblock(100, parse_transactions=True, page=1, limit=1)
+                got = [t.txid if hasattr(t, 'txid') else t for t in b.transactions] if b else None
+                if got is None or got == ids[:1]:
+                    ok += 1
+                else:
+                    pinned = got == ids[2:3]
+                    fail('getblock page 1 after gettransactions cached a later transaction of the block', {'history': ['gettransactions(address)', 'getblock(100, page=2, limit=1)', 'getblock(100, page=1, limit=1)'],
+                         'provider': 'up' if provider_up else 'down'}, 'transaction number %s of the block' % [ids.index(g) if g in ids else '?' for g in got], 'transaction number [0]',
+                         'F-C20-cache-index-two-meanings' if pinned else None)
+            except ServiceError:
+                ok += 1
+            except Exception as e:
+                if type(e).__name__ == 'Down':
+                    ok += 1
+                else:
+                    fail('getblock page 1 after gettransactions', {'provider': 'up' if provider_up else 'down'}, 'raised %s: %s' % (type(e).__name__, str(e)[:120]), 'page or ServiceError')
+            state['down'] = False
         # unspent outputs: the cache holds some of the address's transactions (fetched one by one), with the spent status of the output either
         # known (False) or unknown (None: the provider gave no spent information); every output is in fact unspent, so getutxos must return
         # all of them, in order, whatever part came from the cache
@@ -293,6 +386,30 @@ def run(tier, seed, opens):
                     else:
                         fail('estimatefee warm', {'targets': list(targets), 'blocks': b}, 'raised %s: %s' % (type(e).__name__, str(e)[:120]), 'stored answer or ServiceError')
             state['down'] = False
+        # fee estimate with no provider answering and nothing cached: an error - the network's default fee is invented data (recorded finding);
+        # a provider answer outside the network's fee limits is returned as it was given - the library replaces it by the limit (same finding)
+        from bitcoinlib.networks import Network as _Network
+        nw = _Network(net)
+        for scen_name, down, answer in (('no provider answers, nothing cached', True, None), ('provider answers 50', False, 50), ('provider answers 5000000', False, 5000000)):
+            cfg += 1
+            cases += 1
+            db = 'sqlite:///' + os.path.join(tmp, 'e%d.sqlite' % cfg)
+            state['down'], state['fee_answer'] = down, answer
+            try:
+                got = Service(network=net, cache_uri=db).estimatefee(3)
+                if answer is not None and got == answer:
+                    ok += 1
+                else:
+                    pinned = (answer is None and got == nw.fee_default) or (answer is not None and got in (nw.fee_min, nw.fee_max))
+                    fail('estimatefee: ' + scen_name, {'blocks': 3}, repr(got), 'ServiceError' if answer is None else repr(answer), 'F-C20-estimatefee-default-and-limits' if pinned else None)
+            except ServiceError:
+                ok += 1
+            except Exception as e:
+                if type(e).__name__ == 'Down':
+                    ok += 1
+                else:
+                    fail('estimatefee: ' + scen_name, {'blocks': 3}, 'raised %s: %s' % (type(e).__name__, str(e)[:120]), 'ServiceError' if answer is None else repr(answer))
+            state['down'], state['fee_answer'] = False, None
     finally:
         for m, f in orig.items():
             if f is None:
@@ -302,7 +419,7 @@ def run(tier, seed, opens):
                 setattr(bt.BitcoinLibTestClient, m, f)
         shutil.rmtree(tmp, ignore_errors=True)
     res = {'contract': 'service-cache[bounded]', 'target': 'Service.gettransactions / gettransaction, Cache.gettransactions / store_transaction / _parse_db_transaction',
-           'status': 'ok', 'bounded': 'chains of 1..%d transactions x every non-decreasing block-height assignment from 3 heights x every after_txid x provider up / down' % maxn,
+           'status': 'ok', 'bounded': 'chains of 1..%d transactions x every non-decreasing block-height assignment from 3 heights x every after_txid x provider up / down; one uncacheable transaction anywhere in the answer; getutxos with partially filled caches; block pages (7 transactions, page sizes 2 / 3 / 7) cold and from the cache; fee estimates per target, without any provider, and outside the fee limits' % maxn,
            'paths': cases, 'obligations': [{'name': 'service-cache#bounded', 'kind': 'bounded', 'paths': cases, 'discharged': ok, 'failed': failed,
                                             'unknown': 0, 'secs': 0.0, 'solvers': {'native': cases}, 'known': known}],
            'notes': [], 'wall_s': time.time() - t0, 'fuzz': {'runs': 0, 'failures': []}, 'props': ['C20']}
